@@ -88,6 +88,8 @@ def r_tag_table(ck: Checker) -> None:
     isc = ck.repo.func(SER, f"{MIXIN}.__init_subclass__")
     wkeys = [norm(st.targets[0].slice) for st in walk_body(ps.node.body) if isinstance(st, ast.Assign) and isinstance(st.targets[0], ast.Subscript)
              and norm(st.value) in ("self.__class__.__name__", "type(self).__name__")]
+    wkeys += [norm(k_) for d_ in walk_body(ps.node.body) if isinstance(d_, ast.Dict) for k_, v_ in zip(d_.keys, d_.values)
+              if k_ is not None and norm(v_) in ("self.__class__.__name__", "type(self).__name__")]
     rkeys = [norm(c.args[0]) for c in walk_body(ds.node.body) if isinstance(c, ast.Call) and isinstance(c.func, ast.Attribute) and c.func.attr == "get"
              and norm(c.func.value) == ds.node.args.args[1].arg]
     what = "the type tag is written and read under the same key, and its value is the class name"
@@ -258,9 +260,29 @@ def r_idx_pair(ck: Checker) -> None:
         ok = a is not None and b is not None and a[0] == "self" and b[1] == "self" and a[1] == b[0] and not a[1].startswith("len(")
     (ck.holds if ok else ck.violation)("R-IDX-PAIR", p, p.node, what, **({} if ok else {"construct": f"Source.__post_init__ stores {[norm(s_) for s_ in stores]}"}))
     what = "an unknown index raises instead of fabricating a source"
-    ok = any(isinstance(st, ast.If) and norm(st.test) in ("ret is None", "Source._source_idx_to_source.get(idx) is None")
-             and isinstance(st.body[0], ast.Raise) for st in walk_body(d.node.body))
-    (ck.holds if ok else ck.violation)("R-IDX-PAIR", d, d.node, what, **({} if ok else {"construct": "Source._deserialize: unknown index is not rejected"}))
+    dl = decision_tree(strip_docstring(d.node.body), max_atoms=10)
+    bad_ = None
+    n_look = 0
+    for lf in dl:
+        miss = [v for k, v in lf.assign.items() if k.startswith("is(None,Source._source_idx_to_source.get(") or k.startswith("is(None,ret)")]
+        if lf.outcome == "raise":
+            continue
+        if lf.outcome != "return" or lf.value is None:
+            raise Unsupported(f"Source._deserialize: a path ends with {lf.outcome}", d.node)
+        v = norm(lf.value)
+        if v in ("NoSource()", "NO_SOURCE"):
+            continue
+        is_lookup = v.startswith(("Source._source_idx_to_source.get(", "Source._source_idx_to_source[")) or (v == "ret" and miss)
+        if not is_lookup:
+            bad_ = bad_ or f"returns {v[:50]} (not an entry of the source table)"
+            continue
+        n_look += 1
+        if v.startswith("Source._source_idx_to_source[") or (miss and miss[-1] is False):
+            continue  # a missing entry raises KeyError / was excluded on this path
+        bad_ = bad_ or "an unknown index is returned as None instead of raising"
+    if not bad_ and not n_look:
+        raise Unsupported("Source._deserialize: no path returns an entry of the source table", d.node)
+    (ck.holds if not bad_ else ck.violation)("R-IDX-PAIR", d, d.node, what, **({"evaluations": len(dl)} if not bad_ else {"construct": f"Source._deserialize: {bad_}"}))
 
 
 def run(ck: Checker) -> None:
